@@ -1,4 +1,5 @@
 import Hannibal.Props.C07
+import Hannibal.Generated.Wiring
 /- C07 for the wiring extracted from today's source (re-checked on every run). -/
 namespace Hannibal
 
@@ -7,5 +8,7 @@ theorem wellWired07_current : WellWired07 Wiring.current := by decide
 theorem C07_current (c : MonCtx) (ls : List Label) (s : AState)
     (hr : run Wiring.current (AState.init c.cfg c.h0 c.k0) ls = some s) : (monC07 c).ok ls = true :=
   C07_holds _ wellWired07_current c ls s hr
+
+example : (run (noResetWiring Wiring.current) (AState.init c07Cfg 0 .addr) c07Witness).isSome = true := by decide
 
 end Hannibal
